@@ -7,25 +7,56 @@ ROOT = sys.argv[1] if len(sys.argv) > 1 else "/verif/seeded"
 PAT = sys.argv[2] if len(sys.argv) > 2 else "*"
 PROPS = [json.loads(l)["id"] for l in open("/verif/properties.jsonl")]
 
+BASE = os.environ.get("MATRIX_BASE")  # a commit of /repo: run the seeds on the tree they were written against, and report only what that tree alone does not
+
+
+def materialise(tmp):
+    if BASE:
+        subprocess.run(f"git -C /repo archive {BASE} compile.py dsl_compiler lib doc README.md LANGUAGE_SPEC.md | tar -x -C {tmp}", shell=True, check=True)
+        return
+    for item in ("compile.py", "dsl_compiler", "lib", "doc", "example_programs", "README.md", "LANGUAGE_SPEC.md"):
+        src = os.path.join("/repo", item)
+        if os.path.isdir(src):
+            shutil.copytree(src, os.path.join(tmp, item), ignore=shutil.ignore_patterns("__pycache__", "*.pyc", "*.png", "*.gif", "tests"))
+        elif os.path.exists(src):
+            shutil.copy2(src, os.path.join(tmp, item))
+
+
+def violations(tmp, p):
+    env = dict(os.environ, FV_REPO=tmp, FV_NO_EVIDENCE="1")
+    c = subprocess.run(["/venv/bin/python", "-B", "-m", "fv.main", p], cwd="/verif", env=env, capture_output=True, text=True)
+    viol = [l[11:] for l in c.stdout.splitlines() if l.startswith("  violated")]
+    known = [l for l in c.stdout.splitlines() if l.startswith("KNOWN-FINDING")]
+    return c.returncode, viol, [l for l in c.stdout.splitlines() if l.startswith("ANALYSIS-ERROR")][:1], known
+
+
+BASELINE = {}
+if BASE:
+    _t = tempfile.mkdtemp(prefix="fvmxb_")
+    try:
+        materialise(_t)
+        with ThreadPoolExecutor(max_workers=8) as _ex:
+            for p, r in zip(PROPS, _ex.map(lambda p: violations(_t, p), PROPS)):
+                BASELINE[p] = {v.split(" :: ")[0] for v in r[1]} | {k.split(" :: ")[0].split(" ", 2)[-1] for k in r[3]}
+    finally:
+        shutil.rmtree(_t, ignore_errors=True)
+
+
 def run_seed(patch):
     name = "/".join(patch.split("/")[-3:-1])
     tmp = tempfile.mkdtemp(prefix="fvmx_")
     try:
-        for item in ("compile.py", "dsl_compiler", "lib", "doc", "example_programs", "README.md", "LANGUAGE_SPEC.md"):
-            src = os.path.join("/repo", item)
-            if os.path.isdir(src):
-                shutil.copytree(src, os.path.join(tmp, item), ignore=shutil.ignore_patterns("__pycache__", "*.pyc", "*.png", "*.gif", "tests"))
-            elif os.path.exists(src):
-                shutil.copy2(src, os.path.join(tmp, item))
+        materialise(tmp)
         r = subprocess.run(["patch", "-p1", "-s", "-f", "-i", patch], cwd=tmp, capture_output=True, text=True)
         if r.returncode != 0:
             return name, {"_apply": "FAILED " + (r.stdout + r.stderr)[:200]}
         res = {}
         for p in PROPS:
-            env = dict(os.environ, FV_REPO=tmp, FV_NO_EVIDENCE="1")
-            c = subprocess.run(["/venv/bin/python", "-B", "-m", "fv.main", p], cwd="/verif", env=env, capture_output=True, text=True)
-            viol = [l for l in c.stdout.splitlines() if l.startswith("  violated")]
-            res[p] = (c.returncode, [v[11:150] for v in viol], [l for l in c.stdout.splitlines() if l.startswith("ANALYSIS-ERROR")][:1])
+            rc, viol, err, _known = violations(tmp, p)
+            if BASE:
+                viol = [v for v in viol if v.split(" :: ")[0] not in BASELINE.get(p, set())]
+                rc = 1 if viol else (2 if rc == 2 else 0)
+            res[p] = (rc, [v[:140] for v in viol], err)
         return name, res
     finally:
         shutil.rmtree(tmp, ignore_errors=True)
@@ -47,4 +78,4 @@ for name, res in results:
         for line in v[1][:2]:
             print(f"      {p}: {line}")
     out[name] = {"detected_by": sorted(hits), "exit2": sorted(errs), "details": {p: v[1][:3] for p, v in hits.items()}}
-json.dump(out, open("/tmp/seed_matrix.json", "w"), indent=1)
+json.dump(out, open(os.environ.get("MATRIX_OUT", "/tmp/seed_matrix.json"), "w"), indent=1)
